@@ -164,7 +164,7 @@ func propC19Classification(t veriflib.TB, c c19Case) {
 		}
 		veriflib.Excluded(facet, "open finding "+c19KeyM3UBody+": body attached by the harness")
 	}
-	outItems := postprocessItem(item)
+	outItems := veriflib.CallAs[[]*models.Item](postprocessItem, item)
 
 	assets := map[string]int{}   // Raw -> hops
 	outlinks := map[string]int{} // Raw -> hops
@@ -318,7 +318,7 @@ func propC19S3Dispatch(t veriflib.TB, b verifgen.S3Bucket) {
 			continue
 		}
 		var links []string
-		for _, o := range postprocessItem(item) {
+		for _, o := range veriflib.CallAs[[]*models.Item](postprocessItem, item) {
 			links = append(links, o.GetURL().Raw)
 		}
 		for _, ch := range item.GetChildren() {
